@@ -233,9 +233,141 @@ func leadsOnlyToPanic(b *ssa.BasicBlock) bool {
 	return rec(b)
 }
 
+// c01ByTable decides the actuated value by enumeration: the value handed to adj.Do is followed
+// back through every merge, for every assignment of the branch conditions that select it. Under
+// each assignment the value that arrives must be 0, a reference offset bounded by RCI*drift (the
+// clamp expression, or the raw offset with |raw| > M false), a peer offset bounded by PCI*drift
+// that is beyond the cutoff (|raw| > cfg.PeerClockCutoff true), or the Midpoint of such a
+// reference and such a peer value. How the selection is spelled (flags, helper results, nesting)
+// is irrelevant. ok=false means the structure is outside the domain (loop-carried values, too
+// many conditions) or some assignment lets another value through (detail says which).
+func c01ByTable(fn *ssa.Function, corr ssa.Value) (ok bool, refRaw, peerRaw ssa.Value, nAssign int, detail string) {
+	isMid := func(c *ssa.Call) bool { return ana.CalleeName(&c.Call) == ana.Q("base/timemath.Midpoint") }
+	ve := ana.NewValEval(isMid, corr)
+	atoms := ve.Atoms()
+	if len(atoms) == 0 || len(atoms) > 12 {
+		return false, nil, nil, 0, fmt.Sprintf("%d branch conditions select the value", len(atoms))
+	}
+	absOf := func(v ssa.Value) ssa.Value {
+		if c, _ := ana.CallOf(ana.StripConv(v)); c != nil && ana.CalleeName(c.Common()) == "(time.Duration).Abs" {
+			return c.Common().Args[0]
+		}
+		return nil
+	}
+	// exceeds(raw, assign): some test of |raw| against a bound M; returns M's impact field and whether the test says "exceeds"
+	type verdict struct {
+		imp     string
+		exceeds bool
+	}
+	tests := func(raw ssa.Value, assign uint) (out []verdict, beyondCutoff, cutoffKnown bool) {
+		for i, a := range atoms {
+			if !a.IsCmp {
+				continue
+			}
+			val := assign>>uint(i)&1 == 1
+			c := a.Cmp
+			switch {
+			case c.Op == token.LSS && absOf(c.Y) == raw: // M < |raw|
+				if imp, okM := maxCorrOf(c.X); okM {
+					out = append(out, verdict{imp, val})
+				} else if ana.AccessPath(c.X) == "cfg.PeerClockCutoff" {
+					beyondCutoff, cutoffKnown = val, true
+				}
+			case c.Op == token.LEQ && absOf(c.X) == raw: // |raw| <= M
+				if imp, okM := maxCorrOf(c.Y); okM {
+					out = append(out, verdict{imp, !val})
+				}
+			}
+		}
+		return
+	}
+	var bounded func(v ssa.Value, assign uint) (kind string, raw ssa.Value, why string)
+	bounded = func(v ssa.Value, assign uint) (string, ssa.Value, string) {
+		raw := v
+		imp := ""
+		if x, m, isClamp := clampExprOf(v); isClamp {
+			i2, okM := maxCorrOf(m)
+			if !okM {
+				return "", nil, "clamp to a bound that is not impact*drift"
+			}
+			raw, imp = x, i2
+		}
+		vs, beyond, known := tests(raw, assign)
+		if imp == "" {
+			for _, t := range vs {
+				if !t.exceeds {
+					imp = t.imp
+				}
+			}
+			if imp == "" {
+				return "", nil, "unclamped offset " + ana.ValueString(v) + " without |offset| > bound being false"
+			}
+		}
+		switch imp {
+		case "ReferenceClockImpact":
+			return "ref", raw, ""
+		case "PeerClockImpact":
+			if !known || !beyond {
+				return "", nil, "peer offset used although |offset| > cfg.PeerClockCutoff is not established"
+			}
+			return "peer", raw, ""
+		}
+		return "", nil, "bound with unknown impact factor"
+	}
+	n := 0
+	for a := uint(0); a < 1<<uint(len(atoms)); a++ {
+		lf, okL := ve.Leaf(corr, a)
+		if !okL {
+			return false, nil, nil, 0, "the value is carried around the loop or selected by a structure outside the domain"
+		}
+		n++
+		if isZeroConst(lf) {
+			continue
+		}
+		if c, isCall := lf.(*ssa.Call); isCall && isMid(c) {
+			la, ok1 := ve.Leaf(c.Call.Args[0], a)
+			lb, ok2 := ve.Leaf(c.Call.Args[1], a)
+			if !ok1 || !ok2 {
+				return false, nil, nil, 0, "midpoint operand outside the domain"
+			}
+			k1, r1, w1 := bounded(la, a)
+			k2, r2, w2 := bounded(lb, a)
+			if k1 == "" || k2 == "" || k1 == k2 {
+				return false, nil, nil, 0, "midpoint of " + w1 + " / " + w2
+			}
+			if k1 == "ref" {
+				refRaw, peerRaw = r1, r2
+			} else {
+				refRaw, peerRaw = r2, r1
+			}
+			continue
+		}
+		k, raw, why := bounded(lf, a)
+		switch k {
+		case "ref":
+			refRaw = raw
+		case "peer":
+			peerRaw = raw
+		default:
+			return false, nil, nil, 0, why
+		}
+	}
+	if refRaw == nil || peerRaw == nil {
+		return false, nil, nil, 0, "reference and peer contributions not both found"
+	}
+	return true, refRaw, peerRaw, n, ""
+}
+
 func c01Bounded(p *ana.Prog, r *ana.Result, fn *ssa.Function, do *ssa.Call) {
 	fname := ana.FuncName(fn)
 	corr := do.Call.Args[0]
+	if okT, refRaw, peerRaw, n, _ := c01ByTable(fn, corr); okT {
+		r.Ok("C01.clamp", fname, "actuated-value-bounded", posOf(p, do), fmt.Sprintf("under each of the %d assignments of the conditions that select it, the actuated value is 0, an offset bounded by RCI*drift, an offset bounded by PCI*drift that lies beyond the cutoff, or the Midpoint of the two", n))
+		r.Ok("C01.cutoff", fname, "peer-flag-under-cutoff", posOf(p, do), "a peer offset reaches the actuation only where |peer offset| > cfg.PeerClockCutoff holds")
+		r.Floor("C01.clamp.arms", 4, 4)
+		c01Channels(p, r, fn, refRaw, "refClks", peerRaw, "peerClks")
+		return
+	}
 	ph, ok := corr.(*ssa.Phi)
 	if !ok {
 		r.Violate("C01.clamp", fname, "actuated-value-form", posOf(p, do), "UNDECIDED: the value handed to adj.Do is not a merge of the switch arms")
@@ -601,17 +733,23 @@ func c01PeerFlag(p *ana.Prog, r *ana.Result, fn *ssa.Function, flag *ssa.Phi, ra
 // measures the matching clock list.
 func c01Channels(p *ana.Prog, r *ana.Result, fn *ssa.Function, refRaw ssa.Value, refList string, peerRaw ssa.Value, peerList string) {
 	fname := ana.FuncName(fn)
-	chanOf := func(v ssa.Value) *ssa.Alloc {
+	// the channel a received value comes from: the variable holding it (when closures capture it) or
+	// the channel value itself
+	chanOf := func(v ssa.Value) ssa.Value {
 		u, ok := v.(*ssa.UnOp)
 		if !ok || u.Op != token.ARROW {
 			return nil
 		}
-		ld, ok := u.X.(*ssa.UnOp)
-		if !ok {
+		if ld, ok := u.X.(*ssa.UnOp); ok && ld.Op == token.MUL {
+			if a, ok := ld.X.(*ssa.Alloc); ok {
+				return a
+			}
 			return nil
 		}
-		a, _ := ld.X.(*ssa.Alloc)
-		return a
+		if mk, ok := u.X.(*ssa.MakeChan); ok {
+			return mk
+		}
+		return nil
 	}
 	check := func(raw ssa.Value, list, who string) {
 		ch := chanOf(raw)
@@ -619,37 +757,80 @@ func c01Channels(p *ana.Prog, r *ana.Result, fn *ssa.Function, refRaw ssa.Value,
 			r.Violate("C01.source", fname, "source:"+who, p.Pos(fn.Pos()), "UNDECIDED: the "+who+" offset is not received from a local channel")
 			return
 		}
-		// closures capturing ch
+		// every goroutine started here that sends on ch: the channel is captured by the goroutine's
+		// closure or handed to it as an argument; so is the clock list it measures
 		okSend := false
 		nSend := 0
-		for _, af := range fn.AnonFuncs {
-			var fv *ssa.FreeVar
-			// binding index of ch
-			for _, in := range allInstrs(fn) {
-				mc, isMC := in.(*ssa.MakeClosure)
-				if !isMC || mc.Fn != af {
-					continue
-				}
-				for bi, b := range mc.Bindings {
-					if b == ssa.Value(ch) {
-						fv = af.FreeVars[bi]
+		for _, gin := range allInstrs(fn) {
+			g, isGo := gin.(*ssa.Go)
+			if !isGo {
+				continue
+			}
+			var af *ssa.Function
+			var binds []ssa.Value
+			switch x := g.Call.Value.(type) {
+			case *ssa.MakeClosure:
+				af, _ = x.Fn.(*ssa.Function)
+				binds = x.Bindings
+			case *ssa.Function:
+				af = x
+			}
+			if af == nil || af.Blocks == nil {
+				continue
+			}
+			// resolve a value of the goroutine's function to the value it has at the go statement
+			outer := func(v ssa.Value) ssa.Value {
+				if ld, ok := v.(*ssa.UnOp); ok && ld.Op == token.MUL {
+					if fv, ok := ld.X.(*ssa.FreeVar); ok {
+						for bi, f := range af.FreeVars {
+							if f == fv && bi < len(binds) {
+								return binds[bi] // the captured variable (its address)
+							}
+						}
 					}
 				}
+				if prm, ok := v.(*ssa.Parameter); ok {
+					for pi, q := range af.Params {
+						if q == prm && pi < len(g.Call.Args) {
+							return g.Call.Args[pi]
+						}
+					}
+				}
+				return nil
 			}
-			if fv == nil {
-				continue
+			isCh := func(v ssa.Value) bool {
+				o := outer(v)
+				if o == nil {
+					return false
+				}
+				if ct, ok := o.(*ssa.ChangeType); ok {
+					o = ct.X // chan T handed over as chan<- T
+				}
+				if o == ch {
+					return true // captured variable, or the channel value passed as it is
+				}
+				ld, ok := o.(*ssa.UnOp)
+				return ok && ld.Op == token.MUL && ld.X == ch // passed: the variable's current value
+			}
+			listOf := func(v ssa.Value) string {
+				if o := outer(v); o != nil {
+					if a, isAlloc := o.(*ssa.Alloc); isAlloc {
+						return a.Comment
+					}
+					if ph, isPhi := o.(*ssa.Phi); isPhi && ph.Comment != "" {
+						return ph.Comment // the list variable after an optional append
+					}
+					return ana.AccessPath(o)
+				}
+				return ana.AccessPath(v)
 			}
 			ana.Instrs(af, func(in ssa.Instruction) {
 				snd, isS := in.(*ssa.Send)
-				if !isS {
-					return
-				}
-				ld, isL := snd.Chan.(*ssa.UnOp)
-				if !isL || ld.X != ssa.Value(fv) {
+				if !isS || !isCh(snd.Chan) {
 					return
 				}
 				nSend++
-				// value: phi[0, measureOffsetToRefClks(...)#1] with clock list = captured `list`
+				// value: 0, or measureOffsetToRefClks(...)#1 over the clock list `list`
 				good := true
 				any := false
 				var walk func(v ssa.Value)
@@ -668,7 +849,7 @@ func c01Channels(p *ana.Prog, r *ana.Result, fn *ssa.Function, refRaw ssa.Value,
 						good = false
 						return
 					}
-					if !strings.HasSuffix(ana.AccessPath(c.Common().Args[1]), list) || !strings.HasSuffix(ana.AccessPath(c.Common().Args[3]), "cfg.SyncTimeout") {
+					if !strings.HasSuffix(listOf(c.Common().Args[1]), list) || !strings.HasSuffix(ana.AccessPath(c.Common().Args[3]), "cfg.SyncTimeout") {
 						good = false
 						return
 					}
@@ -677,6 +858,8 @@ func c01Channels(p *ana.Prog, r *ana.Result, fn *ssa.Function, refRaw ssa.Value,
 				walk(snd.X)
 				if good && any {
 					okSend = true
+				} else if isZeroConst(snd.X) {
+					nSend-- // `ch <- 0` on the empty-list path of the same goroutine
 				}
 			})
 		}
